@@ -218,6 +218,36 @@ def gen_cross_ins_any(rng, doc, texts):
     return []
 
 
+def gen_block_prefix_edit(rng, doc, texts):
+    """new paragraphs / a heading put in front of the first words of a paragraph (the first paragraph of the body
+    when a header precedes it, else any paragraph start); -> list with 0 or 1 edit"""
+    word = WordSource(rng)
+    pvs = [ParaView(si, pi, p) for pi, (si, p) in enumerate(sem.all_paragraphs(doc))]
+    body = sem.body_story_index(doc)
+    firsts = [pv for pv in pvs if pv.si == body][:1] if body > 0 else []
+    rng.shuffle(pvs)
+    for pv in firsts + pvs[:4]:
+        acc = pv.acc
+        b = 0
+        while b < len(acc) and b < 14 and (acc[b]["c"] != " " or b < 3):
+            b += 1
+        seg = acc[:b]
+        if not seg or not stretch_ok(seg) or seg[0]["state"] != "plain":
+            continue
+        target = "".join(c["c"] for c in seg)
+        if not target.strip() or target != target.strip():
+            continue
+        if count_occ(texts["clean"], target) != 1 or count_occ(texts["raw"], target) != 1:
+            continue
+        if count_occ(fuzzy_norm(texts["clean"]), fuzzy_norm(target)) != 1:
+            continue
+        w = word()
+        new = rng.choice(["# " + w + "\n" + target, w + "\n" + target, "## " + w + "\n" + word() + "\n" + target])
+        return [{"si": pv.si, "pi": pv.pi, "a": 0, "b": b, "target": target, "new": new, "kind": "block_prefix", "comment": None,
+                 "locatable": True, "in_raw": True, "over_del": False, "state": "plain", "rid": None, "at_para_start": True}]
+    return []
+
+
 def gen_cross_ins_edit(rng, doc, texts):
     """one edit that appends to / changes the tail of such a target (list with 0 or 1 edit)"""
     pvs = [ParaView(si, pi, p) for pi, (si, p) in enumerate(sem.all_paragraphs(doc))]
